@@ -267,7 +267,72 @@ func tssRouting(p *packages.Package) (map[string]bool, []string, error) {
 // adapterTableNames finds the two classification tables by role, not by name: the package-level maps
 // keyed by string that ClassifyMsg (with its helpers) looks up — the one with an integer value is the
 // round table, the other one the broadcast set.  Falls back to the names of the reference tree.
-type tableNames struct{ rounds, bcast string }
+type tableNames struct {
+	rounds, bcast string
+	// merged form: ONE map from type URL to a description struct (or a pointer to one) whose integer
+	// field ClassifyMsg returns as the round and whose bool field it returns as the class
+	merged         bool
+	fRound, fBcast *types.Var
+}
+
+// descField: v (a result of ClassifyMsg) is field f of the description looked up in the merged table lk.
+func descField(v ssa.Value, lk *ssa.Lookup) *types.Var {
+	return descFieldN(v, lk, 0)
+}
+
+func descFieldN(v ssa.Value, lk *ssa.Lookup, depth int) *types.Var {
+	base, f, ok := fieldLoad(strip(v))
+	if !ok {
+		// a value computed from one field of the description (the round, normalised per phase:
+		// `if round > 4 { round -= 4 }`): that field, if every operand that is not a constant leads to it
+		if depth > 4 {
+			return nil
+		}
+		var ops []ssa.Value
+		switch x := strip(v).(type) {
+		case *ssa.Phi:
+			ops = x.Edges
+		case *ssa.BinOp:
+			ops = []ssa.Value{x.X, x.Y}
+		case *ssa.Convert:
+			ops = []ssa.Value{x.X}
+		default:
+			return nil
+		}
+		var hit *types.Var
+		for _, o := range ops {
+			if _, isK := o.(*ssa.Const); isK {
+				continue
+			}
+			g := descFieldN(o, lk, depth+1)
+			if g == nil || (hit != nil && g != hit) {
+				return nil
+			}
+			hit = g
+		}
+		return hit
+	}
+	b := strip(base)
+	if ld, isLd := b.(*ssa.UnOp); isLd && ld.Op == token.MUL {
+		b = strip(ld.X) // a struct value copied into a local
+	}
+	if e, isE := b.(*ssa.Extract); isE {
+		b = e.Tuple
+	}
+	if al, isA := b.(*ssa.Alloc); isA {
+		// description copied into a local: its single store
+		if sts := storesToCell(al); len(sts) == 1 {
+			b = strip(sts[0].Val)
+			if e, isE := b.(*ssa.Extract); isE {
+				b = e.Tuple
+			}
+		}
+	}
+	if b == ssa.Value(lk) {
+		return f
+	}
+	return nil
+}
 
 var tableNamesCache = map[string]tableNames{}
 
@@ -275,7 +340,7 @@ func adapterTableNames(m *Module, a adapterInfo) tableNames {
 	if tn, ok := tableNamesCache[a.pkg]; ok {
 		return tn
 	}
-	tn := tableNames{"msgURL2Round", "broadcastMessages"}
+	tn := tableNames{rounds: "msgURL2Round", bcast: "broadcastMessages"}
 	fn := m.Func(a.pkg, "party", "ClassifyMsg")
 	sp := m.SSAPkg(a.pkg)
 	if fn != nil && sp != nil {
@@ -315,7 +380,27 @@ func adapterTableNames(m *Module, a adapterInfo) tableNames {
 			}
 		}
 		if len(rounds) == 1 && len(bcast) == 1 {
-			tn = tableNames{rounds[0], bcast[0]}
+			tn = tableNames{rounds: rounds[0], bcast: bcast[0]}
+		}
+		if len(rounds) == 0 && len(bcast) == 1 {
+			// one table of descriptions: the fields are those the success return hands out
+			var lk *ssa.Lookup
+			for _, in := range instrsDeep(fn) {
+				if l, ok := in.(*ssa.Lookup); ok && globalOf(l.X) == bcast[0] {
+					lk = l
+				}
+			}
+			for _, r := range returnsDeep(fn) {
+				if lk == nil || len(r.Results) != 3 || !isNilConst(retResult(r, 2)) {
+					continue
+				}
+				fr, fb := descField(retResult(r, 0), lk), descField(retResult(r, 1), lk)
+				if fr != nil && fb != nil && intWidth(fr.Type()) > 0 {
+					if bt, isB := fb.Type().Underlying().(*types.Basic); isB && bt.Kind() == types.Bool {
+						tn = tableNames{rounds: bcast[0], bcast: bcast[0], merged: true, fRound: fr, fBcast: fb}
+					}
+				}
+			}
 		}
 	}
 	tableNamesCache[a.pkg] = tn
@@ -362,14 +447,48 @@ func loadAdapterTables(c *Ctx, a adapterInfo, rule string) *adapterTables {
 	if g, ok := sp.Members[tn.rounds].(*ssa.Global); ok && g.Pos().IsValid() {
 		t.roundsPos = g.Pos()
 	}
-	for _, k := range rm.keys {
-		kv, isK := rm.m[k].(constant.Value)
-		if !isK || kv.Kind() != constant.Int {
-			c.Fatalf("anchor", "%s: %s[%q] is not a constant of the initialisation code", a.pkg, tn.rounds, k)
-			return nil
+	if tn.merged {
+		// one table of descriptions: read the two fields of every entry
+		t.bcastPos = t.roundsPos
+		idxOf := func(f *types.Var) int {
+			if st, isS := f.Pkg().Scope().Lookup(ownerOfField(sp, f)).Type().Underlying().(*types.Struct); isS {
+				for i := 0; i < st.NumFields(); i++ {
+					if st.Field(i) == f {
+						return i
+					}
+				}
+			}
+			return -1
 		}
-		v, _ := constant.Int64Val(kv)
-		t.rounds[k] = v
+		ir, ib := idxOf(tn.fRound), idxOf(tn.fBcast)
+		for _, k := range rm.keys {
+			cell, isC := rm.m[k].(*icell)
+			if !isC || ir < 0 || ib < 0 || ir >= len(cell.fields) || ib >= len(cell.fields) {
+				c.Fatalf("anchor", "%s: %s[%q] is not a description the initialisation code builds", a.pkg, tn.rounds, k)
+				return nil
+			}
+			rv, okR := cell.fields[ir].v.(constant.Value)
+			bv, okB := cell.fields[ib].v.(constant.Value)
+			if !okR || !okB || rv.Kind() != constant.Int || bv.Kind() != constant.Bool {
+				c.Fatalf("anchor", "%s: the round/class of %s[%q] are not constants of the initialisation code", a.pkg, tn.rounds, k)
+				return nil
+			}
+			v, _ := constant.Int64Val(rv)
+			t.rounds[k] = v
+			if constant.BoolVal(bv) {
+				t.broadcast[k] = true
+			}
+		}
+	} else {
+		for _, k := range rm.keys {
+			kv, isK := rm.m[k].(constant.Value)
+			if !isK || kv.Kind() != constant.Int {
+				c.Fatalf("anchor", "%s: %s[%q] is not a constant of the initialisation code", a.pkg, tn.rounds, k)
+				return nil
+			}
+			v, _ := constant.Int64Val(kv)
+			t.rounds[k] = v
+		}
 	}
 	bm, ok := ev.mapOf(sp, tn.bcast)
 	if !ok {
@@ -381,6 +500,9 @@ func loadAdapterTables(c *Ctx, a adapterInfo, rule string) *adapterTables {
 		t.bcastPos = g.Pos()
 	}
 	for _, k := range bm.keys {
+		if tn.merged {
+			break
+		}
 		if kv, isK := bm.m[k].(constant.Value); isK && kv.Kind() == constant.Bool && !constant.BoolVal(kv) {
 			continue // a map to bool with an explicit false
 		}
@@ -449,6 +571,9 @@ func adapterNormalisation(c *Ctx, m *Module, a adapterInfo) (func(int64) int64, 
 	for _, in := range instrsOf(fn) {
 		if r, ok := in.(*ssa.Return); ok && len(r.Results) == 3 {
 			if k, ok := r.Results[2].(*ssa.Const); ok && k.Value == nil {
+				if _, isK := r.Results[0].(*ssa.Const); isK && ret != nil {
+					continue // `return 0, false, nil` for a type that is not in the table
+				}
 				ret = r.Results[0]
 			}
 		}
@@ -459,10 +584,22 @@ func adapterNormalisation(c *Ctx, m *Module, a adapterInfo) (func(int64) int64, 
 	if strip(ret) == ssa.Value(lk) {
 		return func(r int64) int64 { return r }, "identity", true
 	}
+	var bound ssa.Value = lk
+	if tn.merged {
+		// the looked-up round is a field of the description
+		if descField(ret, lk) == tn.fRound {
+			return func(r int64) int64 { return r }, "identity", true
+		}
+		for _, in := range instrsDeep(fn) {
+			if v, isV := in.(ssa.Value); isV && descField(v, lk) == tn.fRound {
+				bound = v
+			}
+		}
+	}
 	// the normalisation is read as a function by evaluating the returned value with the looked-up round
 	// bound to each concrete value (an if in place, a helper function, a constant offset, …)
 	eval := func(r int64) (int64, bool) {
-		k, ok := evalUnder(ret, map[ssa.Value]constant.Value{lk: constant.MakeInt64(r)}, 0)
+		k, ok := evalUnder(ret, map[ssa.Value]constant.Value{bound: constant.MakeInt64(r)}, 0)
 		if !ok || k.Kind() != constant.Int {
 			return 0, false
 		}
@@ -664,6 +801,16 @@ func ruleAdapterClassifyProvenance(c *Ctx, rule string, a adapterInfo) {
 				okB = true
 			}
 		}
+		if tn.merged {
+			for _, in2 := range instrsDeep(fn) {
+				if lk, isL := in2.(*ssa.Lookup); isL && globalOf(lk.X) == tn.bcast && isTypeURL(lk.Index) && descField(retResult(r, 1), lk) == tn.fBcast {
+					okB = true
+				}
+			}
+			if _, isK := retResult(r, 0).(*ssa.Const); isK && okB {
+				continue // the "type not in the table" return after the class was established by the other one
+			}
+		}
 		// round depends on msgURL2Round[TypeUrl]
 		sl := NewSlicer(m, a.pkg).Slice(r.Results[0])
 		okR = sliceHas(sl, func(v ssa.Value) bool {
@@ -709,10 +856,12 @@ func ruleAdapterSenderBinding(c *Ctx, rule string, a adapterInfo) {
 				if strip(pr[1]) != strip(from) {
 					continue
 				}
-				if chainTo(pr[0], func(v ssa.Value) bool {
+				isGetFrom := func(v ssa.Value) bool {
 					cl, ok := v.(*ssa.Call)
-					return ok && cl.Call.IsInvoke() && cl.Call.Method.Name() == "GetFrom" && strip(cl.Call.Value) == sent
-				}) {
+					return ok && cl.Call.IsInvoke() && cl.Call.Method.Name() == "GetFrom" && (strip(cl.Call.Value) == sent || resultOf(cl.Call.Value) == sent)
+				}
+				// (the claimed sender may be what a helper extracts from the message: its successful return)
+				if chainTo(pr[0], isGetFrom) || chainTo(resultOf(pr[0]), isGetFrom) {
 					return true
 				}
 			}
@@ -752,6 +901,7 @@ func ruleAdapterDigestBinding(c *Ctx, rule string, a adapterInfo) {
 		}
 		n++
 		var sigOut ssa.Value
+		okFaithful := false
 		okEq := boolFact(FactsAt(r), true, func(v ssa.Value) bool {
 			cl, ok := v.(*ssa.Call)
 			if !ok || !isCallTo(&cl.Call, "bytes", "Equal") {
@@ -764,6 +914,7 @@ func ruleAdapterDigestBinding(c *Ctx, rule string, a adapterInfo) {
 				}
 				if s := sl.Slice(pr[1]); s[msgHash] {
 					sigOut = strip(b)
+					okFaithful = digestFaithful(pr[1], msgHash, 0)
 					return true
 				}
 			}
@@ -780,6 +931,14 @@ func ruleAdapterDigestBinding(c *Ctx, rule string, a adapterInfo) {
 		c.Check(okEq && okData, rule, FuncName(fn), "successful return of Sign", m.Pos(r.Pos()),
 			"dominated by bytes.Equal(sigOut.M, f(msgHash)); returns R,S of that sigOut",
 			"a signature is returned without checking that the signed digest is the requested one (or the returned data is not that signature)")
+		if okEq {
+			// … and f loses nothing the library does not lose: the requested digest itself, through
+			// big.Int.SetBytes/Bytes (what the library is handed) or the curve's standard hashToInt — not
+			// through a helper that pads, truncates or copies a prefix
+			c.Check(okFaithful, rule, FuncName(fn), "the digest compared is the requested one", m.Pos(r.Pos()),
+				"msgHash through big.Int.SetBytes/Bytes (or hashToInt) only",
+				"the value the signed message is compared with is derived from the requested digest by a lossy helper (padding / truncation to a fixed width): a signature on a prefix or a padded form of the digest passes the check and is returned for the digest the caller asked to sign")
+		}
 	}
 	if n == 0 {
 		c.Bad(rule, FuncName(fn), "successful return of Sign", "-", "Sign has no successful return")
@@ -1082,4 +1241,55 @@ func ruleAdapterSeatBinding(c *Ctx, rule string, a adapterInfo) {
 // whose effect on the tables is what evalPackageInit computes.
 func isInitFunc(fn *ssa.Function) bool {
 	return fn.Parent() == nil && fn.Signature.Recv() == nil && (fn.Name() == "init" || strings.HasPrefix(fn.Name(), "init#"))
+}
+
+// ownerOfField: the name of the package-level struct type that declares f.
+func ownerOfField(sp *ssa.Package, f *types.Var) string {
+	sc := sp.Pkg.Scope()
+	for _, n := range sc.Names() {
+		tn, ok := sc.Lookup(n).(*types.TypeName)
+		if !ok {
+			continue
+		}
+		st, ok := tn.Type().Underlying().(*types.Struct)
+		if !ok {
+			continue
+		}
+		for i := 0; i < st.NumFields(); i++ {
+			if st.Field(i) == f {
+				return n
+			}
+		}
+	}
+	return ""
+}
+
+// digestFaithful: v is the requested digest itself, or is obtained from it only through
+// (*big.Int).SetBytes / (*big.Int).Bytes and the ECDSA hashToInt helper (the standard reduction of a
+// hash to the curve order's bit length, which the verifier applies too).
+func digestFaithful(v, msgHash ssa.Value, depth int) bool {
+	if depth > 8 || v == nil {
+		return false
+	}
+	v = strip(v)
+	if v == strip(msgHash) {
+		return true
+	}
+	cl, ok := v.(*ssa.Call)
+	if !ok {
+		return false
+	}
+	if o := calleeObj(&cl.Call); o != nil && o.Pkg() != nil && o.Pkg().Path() == "math/big" {
+		switch o.Name() {
+		case "Bytes":
+			return len(cl.Call.Args) == 1 && digestFaithful(cl.Call.Args[0], msgHash, depth+1)
+		case "SetBytes":
+			return len(cl.Call.Args) == 2 && digestFaithful(cl.Call.Args[1], msgHash, depth+1)
+		}
+		return false
+	}
+	if g := staticCallee(&cl.Call); g != nil && g.Name() == "hashToInt" && len(cl.Call.Args) >= 1 {
+		return digestFaithful(cl.Call.Args[0], msgHash, depth+1)
+	}
+	return false
 }
